@@ -40,6 +40,7 @@ type Mut struct {
 	Param   string `json:"param,omitempty"`
 	Variant string `json:"variant,omitempty"`
 	Fixture int    `json:"fixture,omitempty"`
+	Shift   int64  `json:"shift,omitempty"` // window-shift: seconds added to date, expires and the verification instant
 }
 
 type Case struct {
@@ -310,6 +311,11 @@ func check(c Case, r *vh.R) {
 		case "date", "expires":
 			it.Params[structuredheader.Key(m.Param)] = it.Params[structuredheader.Key(m.Param)].(int64) + int64(m.N)
 			changed = m.N != 0
+		case "window-shift":
+			// date AND expires moved by the same amount (the instant is moved along below)
+			it.Params["date"] = it.Params["date"].(int64) + m.Shift
+			it.Params["expires"] = it.Params["expires"].(int64) + m.Shift
+			changed = m.Shift != 0
 		case "integrity":
 			it.Params["integrity"] = m.Value
 			changed = true
@@ -397,6 +403,10 @@ func check(c Case, r *vh.R) {
 	sec, nsec := instant(s, c.Time)
 	r.Class("time:" + c.Time)
 	inWin := insideWindow(s, sec, nsec)
+	if m.Class == "sig-param" && m.Param == "window-shift" {
+		sec += m.Shift // verify inside the SHIFTED window: outside the signed one unless the shift is tiny
+		inWin = insideWindow(s, sec, nsec)
+	}
 	if !inWin {
 		changed = true
 	}
@@ -407,6 +417,7 @@ func check(c Case, r *vh.R) {
 		return
 	}
 	got, ok := sxgkit.Verify(target, sec, nsec, fetch)
+	sxgkit.Disturb() // the returned payload is judged after unrelated verifications
 	if !ok {
 		r.Class("rejected-at-verify")
 		if changed {
@@ -545,8 +556,13 @@ func genMut(t *rapid.T, s *sxgkit.Spec) (Mut, string) {
 		m.N = rapid.IntRange(0, 1<<16).Draw(t, "n")
 		m.Variant = rapid.SampledFrom([]string{"", "record"}).Draw(t, "variant")
 	case cls == "sig-param":
-		m.Param = rapid.SampledFrom([]string{"date", "expires", "integrity", "validity-url", "cert-sha256", "sig", "sig", "drop", "label", "cert-url", "duplicate", "prepend-bogus"}).Draw(t, "param")
+		m.Param = rapid.SampledFrom([]string{"date", "expires", "window-shift", "window-shift", "integrity", "validity-url", "cert-sha256", "sig", "sig", "drop", "label", "cert-url", "duplicate", "prepend-bogus"}).Draw(t, "param")
 		switch m.Param {
+		case "window-shift":
+			m.Shift = rapid.SampledFrom([]int64{1 << 32, -(1 << 32), 3 << 32, 1 << 31, 1 << 33, 1 << 40, 1 << 16, 1 << 24, 86400 * 365, 604800, 1, -1, 256, 65536}).Draw(t, "shift")
+			if s.Date+m.Shift < 0 {
+				m.Shift = -m.Shift
+			}
 		case "date", "expires":
 			m.N = rapid.SampledFrom([]int{-1, 1, -604800, 604800}).Draw(t, "delta")
 		case "integrity":
